@@ -187,11 +187,12 @@ fn scenarios(ctx: &Ctx) -> Vec<Scenario> {
         // capacity 2 per shard: a second entry for the same key would fit, so it must not be created
         scenario_p("2t-same-key-roomy-shard", b2, false, 128, vec![vec![Op::GiW(0, 7), Op::G(0)], vec![Op::Gi(0), Op::G(0)]]),
         scenario("2t-hold-two", b2, false, vec![vec![Op::GiHold2(0, 1)], vec![Op::GiHold2(1, 2)]]),
-        scenario("2t-evict-vs-pin", b2, false, vec![vec![Op::GiW(0, 5), Op::Gi(1)], vec![Op::Evict, Op::Gi(0), Op::Evict]]),
         scenario("2t-tight-budget", b2, true, vec![vec![Op::GiW(0, 5), Op::Gi(1)], vec![Op::Gi(2), Op::G(0)]]),
         scenario("3t-three-keys", b3, false, vec![vec![Op::GiW(0, 1)], vec![Op::GiW(1, 2), Op::G(0)], vec![Op::Gi(2), Op::Evict]]),
         scenario("2t-clear-vs-insert", b2, false, vec![vec![Op::Touch(0), Op::Touch(1)], vec![Op::Clear, Op::Touch(2)]]),
     ];
+    // the largest quick scenario goes last so that it inherits the time the others did not use
+    v.push(scenario("2t-evict-vs-pin", b2, false, vec![vec![Op::GiW(0, 5), Op::Gi(1)], vec![Op::Evict, Op::Gi(0), Op::Evict]]));
     if !q {
         v.push(scenario("3t-tight-budget", 2, true, vec![vec![Op::GiW(0, 1), Op::Gi(1)], vec![Op::Gi(1), Op::G(0)], vec![Op::Gi(2), Op::Evict]]));
     }
